@@ -392,6 +392,113 @@ def search_nested(job):
     return {"failures": out, "tried": tried}
 
 
+EXTRA_VALUES = [None, True, 0, 1, "x", [], ["a"], {}, {"type": "string"}, {"a": 1}, [{"type": "string"}], "integer", 5.5]
+
+
+def search_extras(job):
+    """C10: inserting keywords the draft does not define - annotations, keywords of other drafts, made-up names - anywhere
+    in a schema (top level, inside a subschema, next to a $ref, identifier-looking objects inside annotations) leaves the
+    reported (keyword, path, schema path) triples unchanged"""
+    root = job["root"]
+    jsonschema, validators = _load(root)
+    from jsonschema import exceptions
+    from spec import drafts
+    out, tried = [], 0
+    limit = job.get("limit", 3)
+
+    def errs(cls, schema, inst):
+        try:
+            return sorted((str(e.validator), [str(x) for x in e.absolute_path], [str(x) for x in e.absolute_schema_path]) for e in cls(schema).iter_errors(inst))
+        except exceptions.RefResolutionError:
+            return "RefResolutionError"
+        except RecursionError:
+            return "RecursionError"
+        except Exception as e:      # noqa
+            return "EXC " + type(e).__name__
+
+    def report(d, base, decorated, inst, a, b):
+        out.append({"kind": "F", "mode": "extras", "draft": d, "schema": encode(decorated), "base": encode(base), "instance": encode(inst),
+                    "expected": {"errors": a}, "observed": {"errors": b}})
+    all_kw = set().union(*[set(drafts.VOCAB[d]) for d in (3, 4, 6, 7)])
+    for d in job.get("drafts", (3, 4, 6, 7)):
+        cls = classes(validators)[d]
+        idk = drafts.ID_KEY[d]
+        other_id = "$id" if idk == "id" else "id"
+        consulted = set(drafts.VOCAB[d])
+        for k0 in drafts.VOCAB[d]:
+            consulted |= set(drafts.siblings(d, k0))       # e.g. draft 3's `required` inside a property subschema
+        if d == 3:
+            consulted.add("required")      # read by properties from the property's subschema
+        foreign = sorted((all_kw - consulted) - {"$ref", "id", "$id", "$schema", "format"})
+        extras = ["title", "description", "default", "examples", "$comment", "definitions", "x-made-up", "frobnicate", other_id] + foreign
+        bases = [({"type": "integer"}, [1, "a"]), ({"properties": {"a": {"type": "integer"}}}, [{"a": 1}, {"a": "x"}]),
+                 ({"items": {"type": "integer"}}, [[1], ["x", 1]]), ({"type": "object", "additionalProperties": False, "properties": {"a": {}}}, [{"a": 1}, {"b": 1}])]
+        if d != 3:
+            bases += [({"anyOf": [{"type": "integer"}, {"type": "string"}]}, [1, None]), ({"not": {"type": "integer"}}, [1, "a"])]
+        for base, insts in bases:
+            for k in extras:
+                if k in base:
+                    continue
+                for v in EXTRA_VALUES:
+                    if k == "definitions" and not isinstance(v, dict):
+                        continue
+                    if k == other_id and not isinstance(v, str):
+                        continue
+                    # at top level and inside the first subschema
+                    variants = [dict(base, **{k: v})]
+                    for bk, bv in base.items():
+                        if isinstance(bv, dict) and bk in ("items", "not"):
+                            variants.append(dict(base, **{bk: dict(bv, **{k: v})}))
+                        elif isinstance(bv, dict) and bk == "properties":
+                            variants.append(dict(base, properties={pk: dict(pv, **{k: v}) for pk, pv in bv.items()}))
+                    for dec in variants:
+                        for inst in insts:
+                            tried += 1
+                            a, b = errs(cls, base, inst), errs(cls, dec, inst)
+                            if a != b:
+                                report(d, base, dec, inst, a, b)
+                                if len(out) >= limit:
+                                    return {"failures": out, "tried": tried}
+        # next to a $ref every other keyword is ignored, whatever the reference looks like
+        def tree(ref, extra):
+            child = {"$ref": ref}
+            child.update(extra)
+            return {"type": "object", "properties": {"value": {"type": "integer"}, "child": child}, "definitions": {"t": {"type": "object", "properties": {"value": {"type": "integer"}}}}}
+        sib = [{"type": "string"}, {"enum": [1, 2]}, {"frobnicate": True, "additionalProperties": False}, {"description": "x", "minLength": 9}] + ([{"required": ["zz"]}] if d != 3 else [])      # draft 3's `required` belongs to the enclosing `properties`, which does read it
+        if d != 3:
+            sib.append({"maxProperties": 0})
+        tinst = [{"value": 1, "child": {"value": 2, "child": {"value": 3}}}, {"value": 1, "child": {"value": "bad"}}, {"child": {"child": {"child": 12}}}]
+        for ref in ("", "#", "#/definitions/t"):
+            for extra in sib:
+                for inst in tinst:
+                    tried += 1
+                    a, b = errs(cls, tree(ref, {}), inst), errs(cls, tree(ref, extra), inst)
+                    if a != b:
+                        report(d, tree(ref, {}), tree(ref, extra), inst, a, b)
+                        if len(out) >= limit:
+                            return {"failures": out, "tried": tried}
+        # identifier-looking objects inside annotations / unknown keywords do not become reference targets
+        url = "demo://nowhere.invalid/thing.json"
+        for k in ("default", "examples", "x-made-up", "definitions-not", "enum"):
+            for ik in ("id", "$id"):
+                emb = {ik: url, "type": "string"}
+                base = {"properties": {"a": {"$ref": url}}}
+                dec = dict(base, **{k: ([emb] if k in ("examples", "enum") else emb)})
+                if k == "enum":
+                    base = dict(base, enum=[{"a": 1}, emb])
+                    dec = base
+                for inst in ({"a": 1}, {"a": "s"}):
+                    tried += 1
+                    b = errs(cls, dec, inst)
+                    if b != "RefResolutionError" and not (k == "enum"):
+                        report(d, base, dec, inst, "RefResolutionError", b)
+                    elif k == "enum" and b not in ("RefResolutionError",) and not (isinstance(b, list) and any(e[0] == "enum" for e in b) and len(b) == 1 and False):
+                        report(d, base, dec, inst, "RefResolutionError", b)
+                    if len(out) >= limit:
+                        return {"failures": out, "tried": tried}
+    return {"failures": out, "tried": tried}
+
+
 def search_meta(job):
     """C11: check_schema(candidate) returns normally exactly when the executable spec accepts the
     candidate under the bundled metaschema; otherwise SchemaError and nothing else."""
@@ -488,6 +595,10 @@ def replay_meta(job):
 def replay(job):
     if job.get("mode") == "meta":
         return replay_meta(job)
+    if job.get("mode") == "extras":
+        # the search is small: re-run it and report the first disagreement, if any
+        r = search_extras({"root": job["root"], "limit": 1, "drafts": [job["draft"]]})
+        return {"status": "fails", "failure": r["failures"][0]} if r["failures"] else {"status": "agrees"}
     root = job["root"]
     jsonschema, validators = _load(root)
     from spec import drafts
@@ -511,7 +622,7 @@ def replay(job):
 
 def main():
     job = json.load(sys.stdin)
-    res = {"search": search, "replay": replay, "search_pairs": search_pairs, "search_nested": search_nested, "search_meta": search_meta, "suite_sanity": suite_sanity}[job["cmd"]](job)
+    res = {"search": search, "replay": replay, "search_pairs": search_pairs, "search_nested": search_nested, "search_extras": search_extras, "search_meta": search_meta, "suite_sanity": suite_sanity}[job["cmd"]](job)
     json.dump(res, sys.stdout)
 
 
